@@ -23,6 +23,7 @@ func (rr *SIG) Sign(k crypto.Signer, m *Msg) ([]byte, error) {
 
 	rr.Hdr = RR_Header{Name: ".", Rrtype: TypeSIG, Class: ClassANY, Ttl: 0}
 	rr.OrigTtl, rr.TypeCovered, rr.Labels = 0, 0, 0
+	rr.Signature = "" // a signature left from an earlier Sign must not end up in the signed RDATA
 
 	// PackBuffer only packs in place when the buffer is larger than the uncompressed
 	// length, whatever m.Compress says; m.Len() is the compressed length.
